@@ -28,7 +28,7 @@ variant_flags() {
       ;;
     sched)
       CXX=clang++
-      LIBFLAGS="-O0 -g -fsanitize-coverage=trace-pc-guard,trace-loads,trace-stores -fno-builtin"
+      LIBFLAGS="-O0 -g -fsanitize-coverage=trace-pc-guard,trace-loads,trace-stores -fno-builtin -fsanitize=thread -mllvm -tsan-instrument-memory-accesses=0 -mllvm -tsan-instrument-func-entry-exit=0 -mllvm -tsan-instrument-memintrinsics=0"   # TSan: atomics only (their memory order reaches sched_rt.cpp); no TSan runtime is linked
       SIMFLAGS="-O1 -g"
       LDFLAGS="-pthread -Wl,--wrap=memcpy -Wl,--wrap=memmove -Wl,--wrap=memset -Wl,--wrap=__cxa_guard_acquire -Wl,--wrap=__cxa_guard_release -Wl,--wrap=__cxa_guard_abort -Wl,--wrap=pthread_mutex_lock -Wl,--wrap=pthread_mutex_trylock -Wl,--wrap=pthread_mutex_unlock -Wl,--wrap=pthread_once"
       DEFS="-DSIM_VARIANT_SCHED"
